@@ -125,7 +125,9 @@ def build(ctx, case, db):
         warm = ("SOLUTION 9\n temp %s\n pH 7 charge\n Na 10\n Cl 10\nGAS_PHASE 9\n -fixed_pressure\n -pressure %s\n -volume 1\n -temperature %s\n" % (f(t2), f(gens.loguni(r, 1, 300)), f(t2))
                 + "".join(" %s %s\n" % (g, f(r.uniform(0.2, 2))) for g in gases) + "END\n")
         info["warm_temp"] = t2
-    text = "KNOBS\n -convergence_tolerance 1e-12\n -iterations 300\n" + sel + warm + sol + "END\nUSE solution 1\n" + blocks + react + "END\n"
+    nfv = mode == "fixed_v" and r.random() < 0.35      # the numerical fixed-volume method (the default under Pitzer databases) has its own Peng-Robinson routine
+    info["numerical_fixed_volume"] = nfv
+    text = "KNOBS\n -convergence_tolerance 1e-12\n -iterations 300\n" + (" -numerical_fixed_volume true\n" if nfv else "") + sel + warm + sol + "END\nUSE solution 1\n" + blocks + react + "END\n"
     return text, info
 
 
@@ -133,6 +135,8 @@ def three_real_roots(a_sum, b, P, T):
     """the cubic in V_m,  P V^3 + (P b - RT) V^2 + (a - 3 P b^2 - 2 RT b) V + (P b^3 + RT b^2 - a b) = 0,
     has three physically meaningful (real, V > b) roots: the state lies between the spinodals, i.e. in the two-phase region of the cubic"""
     import numpy
+    if not all(math.isfinite(x) for x in (a_sum, b, P, T)) or P <= 0:
+        return False
     rts = numpy.roots([P, P * b - R * T, a_sum - 3 * P * b * b - 2 * R * T * b, P * b ** 3 + R * T * b * b - a_sum * b])
     real = [z.real for z in rts if abs(z.imag) < 1e-9 * max(1.0, abs(z.real)) and z.real > b * (1 + 1e-9)]
     return len(real) >= 3
@@ -209,6 +213,8 @@ def run_case(ctx, case):
                 # below the quantifier's range (0.01 atm); the engine clamps V_m of a fixed-volume phase to [0.016, 1e4] L/mol as a numerical guard
                 return Result(INCONCLUSIVE, reason="pressure below 0.01 atm")
             par, a_sum, b_sum, a2 = mixture(db, x, tk)
+            if b_sum <= 0 or vm == 0:
+                return Result(INCONCLUSIVE, reason="the gases present carry no critical constants (ideal-gas branch, no molar volume reported)")
             if three_real_roots(a_sum, b_sum, P, tk):
                 return Result(INCONCLUSIVE, reason="three real roots (two-phase region)")
             # (1) EOS
